@@ -155,7 +155,7 @@ R09B_EXCEPTIONS = {
 
 @rule(
     "R09b",
-    ["C09"],
+    ["C09", "C17"],
     """OUTPUT KEYS: every hand-written _layer stores at least one key whose namespace is self._name (the keys
     __dask_keys__ reports) and the stored output keys have the shape (self._name, index...). For _DelayedExpr the
     stored namespace must be the very expression its _name returns.""",
